@@ -64,6 +64,16 @@ def scalars(d):
     return out
 
 
+def not_zx(d):
+    """why an imported diagram is not a ZX diagram (None if it is): every box must be a ZX generator"""
+    alien = [bx for bx in d.boxes if not isinstance(bx, (zx.Z, zx.X, zx.Had, zx.Swap, zx.Scalar))]
+    if alien:
+        return 'box %r of class %s.%s' % (alien[0], type(alien[0]).__module__, type(alien[0]).__name__)
+    if not isinstance(d, zx.Diagram):
+        return 'class %s.%s' % (type(d).__module__, type(d).__name__)
+    return None
+
+
 def check_export(rep, d):
     r = repr(d)
     rep.case(r, nontrivial=len(d) > 0)
@@ -92,6 +102,12 @@ def check_export(rep, d):
         return
     if (len(b.dom), len(b.cod)) != (len(d.dom), len(d.cod)):
         rep.fail('C17:import.arity', 'imported diagram has type %d -> %d' % (len(b.dom), len(b.cod)), r)
+        return
+    alien = [bx for bx in b.boxes if not isinstance(bx, (zx.Z, zx.X, zx.Had, zx.Swap, zx.Scalar))]
+    if alien or not isinstance(b, zx.Diagram):
+        rep.fail('C17:import.zx_diagram', 'the imported diagram is not a ZX diagram: %s' % (
+            'box %r of class %s.%s' % (alien[0], type(alien[0]).__module__, type(alien[0]).__name__) if alien
+            else 'class %s.%s' % (type(b).__module__, type(b).__name__)), r)
         return
     if not numpy.allclose(zxsim.matrix(b) * scalars(d), want, atol=1e-9):
         rep.fail('C17:roundtrip.matrix', 'from_pyzx(to_pyzx(d)) = %r denotes another matrix (scalar boxes apart)' % (b,), r)
@@ -166,6 +182,9 @@ def check_import(rep, spec, order):
     if (len(d.dom), len(d.cod)) != (len(real.inputs()), len(real.outputs())):
         rep.fail('C17:import.arity', 'imported diagram has type %d -> %d' % (len(d.dom), len(d.cod)), r)
         return
+    if not_zx(d):
+        rep.fail('C17:import.zx_diagram', 'the imported diagram is not a ZX diagram: ' + not_zx(d), r)
+        return
     m = zxsim.matrix(d)
     # up to the scalar, which graphs carry separately
     k = numpy.argmax(abs(want.flatten()))
@@ -210,6 +229,9 @@ def check_boundary_edges(rep):
             rep.fail(key, 'imported diagram has type %d -> %d, the graph %d -> %d'
                      % (len(d.dom), len(d.cod), len(real.inputs()), len(real.outputs())), r)
             continue
+        if not_zx(d):
+            rep.fail('C17:import.zx_diagram', 'the imported diagram is not a ZX diagram: ' + not_zx(d), r)
+            continue
         m = zxsim.matrix(d)
         k = numpy.argmax(abs(want.flatten()))
         ratio = m.flatten()[k] / want.flatten()[k]
@@ -250,6 +272,23 @@ def check_refusals(rep):
         rep.fail('C17:to_pyzx.refuses', 'a box that is not a ZX generator is accepted', 'quantum.H')
 
 
+def by_swaps(perm):
+    """the permutation sending wire i to position perm[i], written with explicit adjacent SWAP boxes (bubble sort), so that
+    the inputs of this driver do not depend on Diagram.swap / Diagram.permutation"""
+    n = len(perm)
+    cur = list(perm)          # cur[p] = target position of the wire now at position p
+    d = Id(n)
+    changed = True
+    while changed:
+        changed = False
+        for p in range(n - 1):
+            if cur[p] > cur[p + 1]:
+                d = d >> Id(p) @ SWAP @ Id(n - p - 2)
+                cur[p], cur[p + 1] = cur[p + 1], cur[p]
+                changed = True
+    return d
+
+
 def run(tier, seed=0, shard=(0, 1)):
     max_boxes = 2 if tier == 'quick' else 3
     rep = Report({'export': 'all ZX diagrams with <= %d boxes over 16 generators (spiders of arity 0-2 with phases, H, SWAP, a '
@@ -274,6 +313,23 @@ def run(tier, seed=0, shard=(0, 1)):
             if idx % shard[1] != shard[0]:
                 continue
             check_import(rep, spec, order)
+    # wide diagrams whose import has to move a wire three or more places: distinguishable wires (a different phase on
+    # each) permuted by every permutation of four wires and by the two long cycles on five, and a spider joining the outer wires
+    if shard[0] == 1 % shard[1]:
+        phases = [Fraction(1, 8), Fraction(1, 4), Fraction(3, 8), Fraction(1, 2), Fraction(5, 8)]
+        for width, perms in ((4, list(itertools.permutations(range(4)))), (5, [(4, 0, 1, 2, 3), (1, 2, 3, 4, 0), (4, 3, 2, 1, 0)])):
+            marks = Id(0)
+            for k in range(width):
+                marks = marks @ Z(1, 1, phases[k])
+            for perm in perms:
+                check_export(rep, marks >> by_swaps(perm))
+        for width in (4, 5):
+            marks = Id(0)
+            for k in range(width):
+                marks = marks @ Z(1, 1, phases[k])
+            join = by_swaps([0] + [k + 1 for k in range(1, width - 1)] + [1]) \
+                >> Z(2, 1, Fraction(1, 4)) @ Id(width - 2)
+            check_export(rep, marks >> join)
     if shard[0] == 0:
         check_refusals(rep)
         check_boundary_edges(rep)
